@@ -104,7 +104,7 @@ Proof.
              forall h', w_hub (fst (step SyncHist_ex_w o)) = Some h' ->
                         booked h' = delegated (w_env (fst (step SyncHist_ex_w o))) A_hub).
   { intros o Hp h' Hh'. pose proof (SyncHist_pricing_op_exact 100 SyncHist_ex_ops o h' Hf) as K.
-    cbv zeta in K. fold SyncHist_ex_w in K. apply K; assumption. }
+    cbv zeta in K. change (run_ops SyncHist_ex_ops (empty_world 100)) with SyncHist_ex_w in K. apply K; assumption. }
   repeat (constructor; [apply K; vm_compute; reflexivity|]). constructor.
 Qed.
 
@@ -125,7 +125,7 @@ Proof.
   subst b.
   destruct (SyncHist_check_writes_off_unrecognised 100 SyncHist_ex_ops bob w' tr h Hf Hh E)
     as (h' & A & B & C & D1 & D2).
-  fold SyncHist_ex_w in D2. rewrite Hb, Hs, Hd in D2. destruct (SyncHist_ex_synced _ D2) as [X Y].
+  change (run_ops SyncHist_ex_ops (empty_world 100)) with SyncHist_ex_w in D2. rewrite Hb, Hs, Hd in D2. destruct (SyncHist_ex_synced _ D2) as [X Y].
   exists h, w', tr, h'. split; [exact Hh|]. split; [reflexivity|]. split; [exact A|].
   assert (Hbk : booked h = 3000000) by (unfold booked; rewrite Hb, Hs; reflexivity).
   assert (Hbk' : booked h' = 2900000) by (unfold booked; rewrite X, Y; reflexivity).
@@ -155,7 +155,7 @@ Proof.
   split; [vm_compute; tauto|]. split; [vm_compute; reflexivity|].
   split; [|split; vm_compute; reflexivity].
   intros h' Hh'. pose proof (SyncHist_pricing_op_exact 100 SyncHist_ex_ops2 SyncHist_ex_tx2 h' Hf) as K.
-  cbv zeta in K. fold SyncHist_ex_w2 in K. apply K; [vm_compute; reflexivity|exact Hh'].
+  cbv zeta in K. change (run_ops SyncHist_ex_ops2 (empty_world 100)) with SyncHist_ex_w2 in K. apply K; [vm_compute; reflexivity|exact Hh'].
 Qed.
 
 (** ** 10. witnesses *)
